@@ -318,4 +318,335 @@ theorem dict_semantics_class (σ : State) (hwf : WF σ) (v : ClassId) (hv : v < 
       funext k'; simp only [visible, hd]
     rw [this, hvis, overlay_applyOp]
 
+/-! ### instance views -/
+
+theorem iGet_overlay (σ : State) (f : Frame) (c : ClassId) (d : DescId) (k : Key) :
+    (iGet σ f c d k).toOption = overlay (fun k => (tGet σ c d k).toOption) (frameLayer f) k := by
+  simp only [iGet, overlay, frameLayer]
+  cases hg : AList.get? f k with
+  | none => rfl
+  | some s => cases s <;> simp [Except.toOption]
+
+/-- what `_InstanceLookup`'s writing methods leave in `local`, as a layer (all but `clear`) -/
+theorem iWrite_layer (σ : State) (f : Frame) (c : ClassId) (d : DescId) (o : Op) (hc : o ≠ .clear) :
+    frameLayer (iWrite σ f c d o).1
+      = applyOp (fun k => (iGet σ f c d k).toOption) (frameLayer f) o := by
+  cases o <;> simp only [iWrite, applyOp]
+  case setitem k x => rw [frameLayer_set]
+  case delitem k =>
+    rcases except_cases (iGet σ f c d k) with ⟨e, hg⟩ | ⟨x, hg⟩
+    · simp [hg, Except.toOption]
+    · simp only [hg, Except.toOption, Option.isSome_some, if_true, frameLayer_set]
+  case clear => exact absurd rfl hc
+  case pop k dflt =>
+    rcases except_cases (iGet σ f c d k) with ⟨e, hg⟩ | ⟨x, hg⟩
+    · simp [hg, Except.toOption]
+    · simp only [hg, Except.toOption, Option.isSome_some, if_true, frameLayer_set]
+  case setdefault k dv =>
+    rcases except_cases (iGet σ f c d k) with ⟨e, hg⟩ | ⟨x, hg⟩
+    · simp only [hg, Except.toOption, Option.isSome_none, Bool.false_eq_true, if_false, frameLayer_set]
+    · simp [hg, Except.toOption]
+  case update ps => rw [frameLayer_update]
+
+/-- `_InstanceLookup.clear()`: `local` is emptied, then every key the class shows is tombstoned -/
+theorem iWrite_clear_layer (σ : State) (f : Frame) (c : ClassId) (d : DescId) :
+    frameLayer (iWrite σ f c d .clear).1
+      = fun k => if ((tGet σ c d k).toOption).isSome then some .deleted else none := by
+  simp only [iWrite, frameLayer_foldl_deleted, mem_keys_tItems]
+  rfl
+
+theorem overlay_clear (below : Mapping) :
+    overlay below (fun k => if (below k).isSome then some .deleted else none) = Mapping.empty := by
+  funext k
+  simp only [overlay, Mapping.empty]
+  cases h : below k <;> simp
+
+theorem visible_inst_storage (σ : State) (i : InstId) (y : Inst) (f : Frame) (d : DescId)
+    (hy : σ.insts[i]? = some y) (hl : y.loc = .storage f) (hd : σ.descOf y.cls = some d) :
+    visible σ (.inst i) = overlay (fun k => (tGet σ y.cls d k).toOption) (frameLayer f) := by
+  funext k; simp only [visible, hy, hl, hd, iGet_overlay]
+
+theorem lt_of_getElem? {α : Type} (l : List α) (i : Nat) (x : α) (h : l[i]? = some x) : i < l.length := by
+  rcases Nat.lt_or_ge i l.length with h' | h'
+  · exact h'
+  · simp [List.getElem?_eq_none h'] at h
+
+/-- **dict semantics, instance views** (instances that still use `local_storage`) -/
+theorem dict_semantics_inst (σ : State) (i : InstId) (x : Inst) (f : Frame) (d : DescId)
+    (hx : σ.insts[i]? = some x) (hloc : x.loc = .storage f) (hd : σ.descOf x.cls = some d) (o : Op) :
+    visible (step σ (.op (.inst i) o)).1 (.inst i) = dictApply o (visible σ (.inst i)) := by
+  have hvis := visible_inst_storage σ i x f d hx hloc hd
+  simp only [step, instOp, hx, hloc, hd]
+  cases hr : dictLikeRead (iReader σ f x.cls d) o with
+  | some r =>
+    simp only
+    cases o <;> simp_all [dictLikeRead, dictApply]
+  | none =>
+    simp only
+    have hlt := lt_of_getElem? _ _ _ hx
+    have hvis' : ∀ f', visible (setInst σ i { x with loc := .storage f' }) (.inst i)
+        = overlay (fun k => (tGet σ x.cls d k).toOption) (frameLayer f') := by
+      intro f'
+      have h1 := visible_inst_storage (setInst σ i { x with loc := .storage f' }) i
+        { x with loc := .storage f' } f' d (by simp [setInst, List.getElem?_set_self hlt]) rfl
+        ((descOf_congr (σ := σ) rfl x.cls).trans hd)
+      rw [h1]
+      congr 1
+      funext k
+      exact congrArg _ (tGet_congr (σ := σ) (σ' := setInst σ i { x with loc := .storage f' }) rfl rfl x.cls d k)
+    rw [hvis']
+    by_cases hc : o = .clear
+    · subst hc
+      rw [iWrite_clear_layer, hvis]
+      simp only [dictApply]
+      exact overlay_clear _
+    · rw [iWrite_layer σ f x.cls d o hc, hvis]
+      have : (fun k => (iGet σ f x.cls d k).toOption)
+          = overlay (fun k => (tGet σ x.cls d k).toOption) (frameLayer f) := by
+        funext k; exact iGet_overlay σ f x.cls d k
+      rw [this, overlay_applyOp]
+
+/-! ### results of the methods -/
+
+theorem lookupFrames_error (fs : List Frame) (k : Key) (e : Err) (h : lookupFrames fs k = .error e) :
+    e = .keyError := by
+  induction fs with
+  | nil => simp [lookupFrames] at h; exact h.symm
+  | cons f r ih =>
+    simp only [lookupFrames] at h
+    split at h
+    · exact ih h
+    · simp at h; exact h.symm
+    · simp at h
+
+theorem tGet_error (σ : State) (v : ClassId) (d : DescId) (k : Key) (e : Err)
+    (h : tGet σ v d k = .error e) : e = .keyError := lookupFrames_error _ k e h
+
+theorem iGet_error (σ : State) (f : Frame) (v : ClassId) (d : DescId) (k : Key) (e : Err)
+    (h : iGet σ f v d k = .error e) : e = .keyError := by
+  simp only [iGet] at h
+  split at h
+  · simp at h; exact h.symm
+  · simp at h
+  · exact tGet_error σ v d k e h
+
+theorem itemsOf_tItems (σ : State) (v : ClassId) (d : DescId) (hd : σ.descOf v = some d) :
+    ItemsOf (visible σ (.cls v)) (tItems σ v d) := by
+  refine ⟨nodup_tItems σ v d, fun k x => ?_⟩
+  simp only [visible, hd, ← get?_tItems]
+  exact ⟨get?_of_mem_nodup _ k x (nodup_tItems σ v d), mem_of_get? _ k x⟩
+
+/-- results of the order-free methods through a class view are those of a Python dict -/
+theorem dict_result_class (σ : State) (v : ClassId) (hv : v < σ.classes.length)
+    (d : DescId) (hd : σ.descOf v = some d) (o : Op) (r : Res)
+    (h : dictResult o (visible σ (.cls v)) = some r) : (step σ (.op (.cls v) o)).2 = r := by
+  have hvis : ∀ k, visible σ (.cls v) k = (tGet σ v d k).toOption := fun k => by simp [visible, hd]
+  have hmem := mem_keys_tItems σ v d
+  simp only [step, classOp, hv, if_true, hd]
+  cases o <;> simp only [dictResult, Option.some.injEq, reduceCtorEq] at h <;>
+    simp only [dictLikeRead, tReader, tWrite] <;> subst h
+  case getitem k =>
+    rcases except_cases (tGet σ v d k) with ⟨e, hg⟩ | ⟨x, hg⟩
+    · have := tGet_error σ v d k e hg; subst this; simp [hvis, hg, Except.toOption]
+    · simp [hvis, hg, Except.toOption]
+  case setitem k x => rfl
+  case delitem k =>
+    rcases except_cases (tGet σ v d k) with ⟨e, hg⟩ | ⟨x, hg⟩
+    · have := tGet_error σ v d k e hg; subst this; simp [hvis, hg, Except.toOption]
+    · simp [hvis, hg, Except.toOption]
+  case clear => rfl
+  case pop k dflt =>
+    rcases except_cases (tGet σ v d k) with ⟨e, hg⟩ | ⟨x, hg⟩
+    · have := tGet_error σ v d k e hg; subst this; cases dflt <;> simp [hvis, hg, Except.toOption]
+    · cases dflt <;> simp [hvis, hg, Except.toOption]
+  case setdefault k dv =>
+    rcases except_cases (tGet σ v d k) with ⟨e, hg⟩ | ⟨x, hg⟩ <;> simp [hvis, hg, Except.toOption]
+  case update ps => rfl
+  case get k dv =>
+    rcases except_cases (tGet σ v d k) with ⟨e, hg⟩ | ⟨x, hg⟩ <;> simp [hvis, hg, Except.toOption]
+  case contains k =>
+    simp only [hvis, hmem]
+    cases (tGet σ v d k).toOption <;> simp
+  case popitem => rfl
+
+/-- results of the iterating methods through a class view: those of a Python dict that lists
+    the visible mapping in the order `items()` chose -/
+theorem iter_result_class (σ : State) (v : ClassId) (hv : v < σ.classes.length)
+    (d : DescId) (hd : σ.descOf v = some d) (o : Op) :
+    ∃ l, ItemsOf (visible σ (.cls v)) l ∧
+      ∀ r, iterResult l o = some r → (step σ (.op (.cls v) o)).2 = r := by
+  refine ⟨tItems σ v d, itemsOf_tItems σ v d hd, fun r h => ?_⟩
+  have hof := ofPairs_of_nodup (tItems σ v d) (nodup_tItems σ v d)
+  simp only [step, classOp, hv, if_true, hd]
+  cases o <;> simp only [iterResult, Option.some.injEq, reduceCtorEq] at h <;>
+    simp only [dictLikeRead, tReader, hof] <;> exact h
+
+/-! ## writes are visible below -/
+
+/-- class `w` inherits from class `v` and nothing between them shadows key `k`: the MRO of `w`
+    is some classes `pre` followed by the MRO of `v`; no class of `pre` restarts `properties`
+    or holds `k` (value or tombstone) in its own frame -/
+def Unshadowed (σ : State) (w v : ClassId) (k : Key) : Prop :=
+  ∃ pre d, σ.mroOf w = pre ++ σ.mroOf v ∧ σ.descOf v = some d ∧
+    ∀ x ∈ pre, σ.ownOf x = none ∧ AList.get? (σ.frameD (.cls d x)) k = none
+
+theorem findSome?_append_none {α β : Type} (f : α → Option β) (a b : List α)
+    (h : ∀ x ∈ a, f x = none) : (a ++ b).findSome? f = b.findSome? f := by
+  induction a with
+  | nil => rfl
+  | cons x r ih =>
+    simp only [List.cons_append, List.findSome?_cons, h x (List.mem_cons_self ..)]
+    exact ih (fun y hy => h y (List.mem_cons_of_mem _ hy))
+
+theorem lookup_walk_append (σ : State) (d : DescId) (pre rest : List ClassId) (k : Key)
+    (h : ∀ x ∈ pre, σ.ownOf x = none ∧ AList.get? (σ.frameD (.cls d x)) k = none) :
+    lookupFrames (σ.walk d (pre ++ rest)) k = lookupFrames (σ.walk d rest) k := by
+  induction pre with
+  | nil => rfl
+  | cons x r ih =>
+    have hx := h x (List.mem_cons_self ..)
+    have ih' := ih (fun y hy => h y (List.mem_cons_of_mem _ hy))
+    have ho : σ.owns x d = false := by simp [State.owns, hx.1]
+    simp only [List.cons_append, State.walk, ho, Bool.false_eq_true, if_false]
+    cases hg : AList.get? σ.frames (.cls d x) with
+    | none => exact ih'
+    | some f =>
+      have : AList.get? f k = none := by simpa [State.frameD, hg] using hx.2
+      simp only [lookupFrames, this, ih']
+
+/-- a class shows, for an unshadowed key, exactly what the ancestor shows -/
+theorem sees_ancestor (σ : State) (w v : ClassId) (k : Key) (h : Unshadowed σ w v k) :
+    visible σ (.cls w) k = visible σ (.cls v) k := by
+  obtain ⟨pre, d, hm, hd, hpre⟩ := h
+  have hdw : σ.descOf w = some d := by
+    unfold State.descOf at hd ⊢
+    rw [hm, findSome?_append_none _ _ _ (fun x hx => (hpre x hx).1)]
+    exact hd
+  simp only [visible, hd, hdw, tGet, tFrames, hm, lookup_walk_append σ d pre _ k hpre]
+
+/-- an instance shows, for a key its local storage does not hold, what its class shows -/
+theorem inst_sees_class (σ : State) (i : InstId) (x : Inst) (f : Frame) (k : Key)
+    (hx : σ.insts[i]? = some x) (hloc : x.loc = .storage f) (hk : AList.get? f k = none) :
+    visible σ (.inst i) k = visible σ (.cls x.cls) k := by
+  simp only [visible, hx, hloc]
+  cases hd : σ.descOf x.cls with
+  | none => rfl
+  | some d => simp only [iGet, hk]
+
+theorem unshadowed_step (σ : State) (hwf : WF σ) (w v : ClassId) (hv : v < σ.classes.length)
+    (k : Key) (o : Op) (h : Unshadowed σ w v k) :
+    Unshadowed (step σ (.op (.cls v) o)).1 w v k := by
+  obtain ⟨pre, d, hm, hd, hpre⟩ := h
+  simp only [step]
+  rcases classOp_state σ v o with e | ⟨d', f, e⟩
+  · rw [e]; exact ⟨pre, d, hm, hd, hpre⟩
+  · rw [e]
+    refine ⟨pre, d, hm, hd, fun x hx => ⟨(hpre x hx).1, ?_⟩⟩
+    have hne : x ≠ v := by
+      intro e'; subst e'
+      obtain ⟨tail, hmv⟩ := hwf.mro_head x hv
+      have hnd := hwf.mro_nodup w
+      rw [hm, hmv] at hnd
+      exact (List.nodup_append.1 hnd).2.2 x hx x (by simp) rfl
+    rw [frameD_setFrame, if_neg]
+    · exact (hpre x hx).2
+    · unfold State.baseKey; split <;> simp [hne.symm]
+
+/-- **Writes are visible below.**  After any method called through the view of class `v`,
+    every class `w` that inherits from `v` without shadowing key `k` shows for `k` what a
+    Python dict holding `v`'s previously visible mapping would hold after that method. -/
+theorem write_visible_below (σ : State) (hwf : WF σ) (w v : ClassId) (hv : v < σ.classes.length)
+    (k : Key) (o : Op) (h : Unshadowed σ w v k) :
+    visible (step σ (.op (.cls v) o)).1 (.cls w) k = dictApply o (visible σ (.cls v)) k := by
+  obtain ⟨_, d, _, hd, _⟩ := id h
+  rw [sees_ancestor _ w v k (unshadowed_step σ hwf w v hv k o h),
+    dict_semantics_class σ hwf v hv d hd o]
+
+theorem classOp_insts (σ : State) (v : ClassId) (o : Op) : (classOp σ v o).1.insts = σ.insts := by
+  rcases classOp_state σ v o with e | ⟨d, f, e⟩ <;> rw [e]; rfl
+
+/-- … and so does every instance of such a class whose local storage does not hold `k` -/
+theorem write_visible_below_inst (σ : State) (hwf : WF σ) (i : InstId) (x : Inst) (f : Frame)
+    (v : ClassId) (hv : v < σ.classes.length) (k : Key) (o : Op)
+    (hx : σ.insts[i]? = some x) (hloc : x.loc = .storage f) (hk : AList.get? f k = none)
+    (h : Unshadowed σ x.cls v k) :
+    visible (step σ (.op (.cls v) o)).1 (.inst i) k = dictApply o (visible σ (.cls v)) k := by
+  have hx' : (step σ (.op (.cls v) o)).1.insts[i]? = some x := by
+    simp only [step, classOp_insts]; exact hx
+  rw [inst_sees_class _ i x f k hx' hloc hk]
+  exact write_visible_below σ hwf x.cls v hv k o h
+
+/-! ## detached instances -/
+
+/-- the command is not addressed to instance `i` -/
+def NotAddressed (i : InstId) : Cmd → Prop
+  | .op (.inst j) _ => j ≠ i
+  | .assign j _ => j ≠ i
+  | _ => True
+
+theorem step_insts_other (σ : State) (i : InstId) (x : Inst) (hx : σ.insts[i]? = some x)
+    (cmd : Cmd) (hc : NotAddressed i cmd) : (step σ cmd).1.insts[i]? = some x := by
+  have hlt := lt_of_getElem? _ _ _ hx
+  cases cmd with
+  | op V o =>
+    cases V with
+    | cls c => simp only [step, classOp_insts]; exact hx
+    | inst j =>
+      have hj : j ≠ i := hc
+      simp only [step]
+      rcases instOp_state σ j o with e | ⟨y, e⟩ <;> rw [e]
+      · exact hx
+      · simp only [setInst, List.getElem?_set_ne hj]; exact hx
+  | subclass p => simp only [step]; split <;> exact hx
+  | subclassMI t => simp only [step]; split <;> exact hx
+  | usingProps p init => simp only [step]; split <;> exact hx
+  | usingShared p ow =>
+    simp only [step]; split
+    · split <;> exact hx
+    · exact hx
+  | withProps p ps =>
+    simp only [step]; split
+    · rw [classOp_insts]; exact hx
+    · exact hx
+  | newInst c =>
+    simp only [step]; split
+    · simp only [List.getElem?_append_left hlt]; exact hx
+    · exact hx
+  | newInstWith c m =>
+    simp only [step]; split
+    · simp only [List.getElem?_append_left hlt]; exact hx
+    · exact hx
+  | assign j m =>
+    have hj : j ≠ i := hc
+    simp only [step]; split
+    · exact hx
+    · simp only [setInst, List.getElem?_set_ne hj]; exact hx
+  | newInstCompound c m =>
+    simp only [step]; split
+    · show (σ.insts ++ _)[i]? = _
+      simp only [List.getElem?_append_left hlt]; exact hx
+    · exact hx
+
+/-- **Detached.**  An instance that was assigned a plain mapping shows that mapping and nothing
+    else, and no command addressed to another view (any class, any other instance, any
+    derivation or instantiation) changes it. -/
+theorem detached (σ : State) (i : InstId) (x : Inst) (m : Dict Val)
+    (hx : σ.insts[i]? = some x) (hloc : x.loc = .plain m) :
+    visible σ (.inst i) = (fun k => AList.get? m k) ∧
+    ∀ cmd, NotAddressed i cmd → visible (step σ cmd).1 (.inst i) = visible σ (.inst i) := by
+  have h1 : ∀ σ' : State, σ'.insts[i]? = some x → visible σ' (.inst i) = (fun k => AList.get? m k) := by
+    intro σ' h; funext k; simp only [visible, h, hloc]
+  exact ⟨h1 σ hx, fun cmd hc => by rw [h1 _ (step_insts_other σ i x hx cmd hc), h1 σ hx]⟩
+
+/-- lifted to histories: no sequence of commands addressed elsewhere changes a detached instance -/
+theorem detached_history (i : InstId) (x : Inst) (m : Dict Val) (hloc : x.loc = .plain m) :
+    ∀ (cmds : List Cmd) (σ : State), σ.insts[i]? = some x → (∀ c ∈ cmds, NotAddressed i c) →
+      visible (run σ cmds).1 (.inst i) = (fun k => AList.get? m k)
+  | [], σ, hx, _ => (detached σ i x m hx hloc).1
+  | c :: cs, σ, hx, hall => by
+    simp only [run]
+    exact detached_history i x m hloc cs (step σ c).1
+      (step_insts_other σ i x hx c (hall c (List.mem_cons_self ..)))
+      (fun c' hc' => hall c' (List.mem_cons_of_mem _ hc'))
+
 end Flatland.C17.Proofs
